@@ -197,6 +197,9 @@ def check(ctx):
                     exp_dup = 0 if (first or never_sent) else 8
                     pats = [x for x in patches_on(flat_region, obj) if flat_region.index(x) < flat_region.index(e)]
                     vcond = version_cond(e.conds)
+                    if vcond is False:
+                        # on the 3.1.1 arm `|= 0` (a helper that yields the DUP bits of this version: none) is not a patch
+                        pats = [x for x in pats if not (x.a["op"] == "BitOr" and x.a["val"] == ("const", 0))]
                     unconditional = RETRY_KINDS[kind]
                     # (on a first transmission DUP is 0: or-ing 0 into the byte and not touching it are the same thing)
                     if unconditional:
@@ -288,8 +291,10 @@ def check(ctx):
                         if not dep and len(e.stack) > 1:
                             # the delay was computed by the caller and handed to a small arming helper: the interval object of the very
                             # request that is armed was called in the caller's frame
+                            # (through one or more helpers: _rearm(request, delay, cb) -> _later(delay, fn, *args) -> callLater)
                             dep = any(x.kind == "CALL" and x.a["func"].endswith(".__call__") and "nterval" in x.a["func"]
-                                      and x.stack[:len(e.stack) - 1] == e.stack[:-1] and isinstance(x.a.get("recv"), tuple)
+                                      and any(x.stack[:len(e.stack) - up] == e.stack[:-up] for up in range(1, len(e.stack)))
+                                      and isinstance(x.a.get("recv"), tuple)
                                       and (x.a["recv"][:2] == ("attr", req) or (tr.path.st is not None and any(
                                           o == req and is_interval_field(fl) and v == x.a["recv"] for (o, fl), v in tr.path.st.heap.items())))
                                       for x in tr.events[:i])
